@@ -204,7 +204,7 @@ def oracle(case):
 	ts, ta, tp, tq, tf = rfc3986.resolve(base, ref, remove_dot_segments=lambda p: rfc3986.remove_dot_segments(rfc3986.collapse(p)))
 	plain = (ts or u'') + u'://' + (ta or u'') + tp + (u'?' + tq if tq is not None else u'') + (u'#' + tf if tf is not None else u'')
 	import re as _re2
-	if ts in (u'http', u'https') and ta and tp and _re2.match(u"^https?://[a-z0-9]+(\\.[a-z0-9]+)*(:[0-9]+)?/[A-Za-z0-9._~:@;=/-]*(\\?[A-Za-z0-9._~:@;=/&?-]+)?(#[A-Za-z0-9._~:@;=/?-]+)?$", plain) \
+	if ts in (u'http', u'https') and ta and tp and _re2.match(u"^https?://[a-z0-9]+(\\.[a-z0-9]+)*(:[0-9]+)?/[A-Za-z0-9._~:@;=/-]*(\\?[A-Za-z0-9._~:@;=/&?-]+)?(#[A-Za-z0-9._~:@;=/?!$&'()*+,-]+)?$", plain) \
 			and not _re2.search(u':(80|443)(/|$)', plain[6:]) and not rootless_dots(ref) and u'//' not in tp \
 			and not any(pair.count(u'=') > 1 for pair in (tq or u'').split(u'&')):      # (a second '=' inside a pair is data for the query codec, which escapes it: another spelling of the same pairs)
 		if text(got) != plain:
